@@ -1,4 +1,5 @@
 import Bng.Proof.Bitmap
+import Bng.Proof.BitmapRefine
 /-
   C01 — No address or prefix is ever held by two subscribers at once.
 
@@ -80,6 +81,15 @@ theorem bitmap_lookups_agree (c : Cfg) (hc : GoodCfg c) (ops : List Op) (k i : N
     (run (init c) ops).allocated.lookup k = some i ↔ (run (init c) ops).idx2sub.lookup i = some k := by
   have hI := inv_run (inv_init c hc.2.2) ops
   exact ⟨hI.fwd k i, hI.bwd k i⟩
+
+/-- Refinement to the abstract pool: along EVERY history the pool monitor `PoolSpec.check` — the very
+    definition `bngdrv` evaluates on the real allocator's answers (clauses unique, idempotent, range,
+    agree, count, total, exhaustion, lost) — raises no verdict on the model's answers. -/
+theorem bitmap_refines_poolspec (c : Cfg) (hc : GoodCfg c) (ops : List Op) :
+    monRun c [] (trace (init c) ops) = [] := by
+  have hI := inv_init c hc.2.2
+  have hR : Rel (init c) [] := ⟨by intro k; simp [init], nodupKeys_nil, by simp [init]⟩
+  exact monRun_silent hI hR ops
 
 /-! non-vacuity: a concrete geometry satisfies the hypotheses and a concrete history holds a unit -/
 example : GoodCfg { famBits := 32, poolPrefix := 29, plen := 32, base := 0x0a000000 } := by
